@@ -3,7 +3,7 @@ import io
 
 from hypothesis import strategies as st
 
-from pbt import core, formats, strategies as S
+from pbt import bamprog, core, formats, strategies as S
 from pbt.core import Failure
 
 ID = "C04"
@@ -16,17 +16,24 @@ RULE = ("A source file from the grammars with valid non-canonical spellings (lea
         "the selected records' original bytes in order. Modified tables: every column that was never replaced keeps each record's original "
         "text; replaced values appear in canonical formatting; rows of a replaced column that came from an operand without the replacement "
         "keep their original text or its canonical re-formatting. Non-trivial: records of >= 2 different byte lengths and a program of >= 2 "
-        "steps, or a concatenation after a selection.")
+        "steps, or a concatenation after a selection. "
+        "BAM (pbt/bamprog.py): files from the independent encoder, read lazily; programs of selections, single-field reads, full reads, writes through "
+        "bnp.open(path, 'w') and concatenations, built from random steps and from chains select - read fields - write - read other fields on the same "
+        "table; every written selection must decompress to the header plus the selected records' original bytes, every field read at any point must "
+        "equal the generated record's value, and after the program every table in the pool is read completely once more.")
 ASSUMPTIONS = [
     "Replacement values are arrays in the column's own representation (ndarray, StringArray, encoded array), as the property says 'array values'.",
     "GTF is read eagerly by design, so its integers are generated in canonical spelling only.",
     "For a modified write from a CRLF source, lines may end in LF or CRLF; field texts are compared after removing the line end.",
     "Extra text that is not a field of the entry type (FASTQ '+name') is only required to survive unmodified writes.",
+    "BamBuffer declares supports_modified_write = False: only selections of lazily read records can be written. Writing a concatenated (hence parsed) "
+    "BAM table raises; that is the tolerant class 'bam-write-unsupported'. bnp.replace is not generated for BAM for the same reason.",
 ]
 REQUIRED_CLASSES = ["negative-step", "repeats", "empty-selection", "select-select-concat", "replace-then-select", "select-then-replace",
-                    "crlf", "noncanonical-int", "unmodified", "modified", "observed-then-continued", "write-and-rows"]
-BOUNDS = {"quick": "500 (file, program) pairs for each of 8 formats, up to 10 records, programs of up to 6 steps",
-          "thorough": "10000 pairs per format, up to 30 records, programs of up to 8 steps"}
+                    "crlf", "noncanonical-int", "unmodified", "modified", "observed-then-continued", "write-and-rows",
+                    "bam", "bam-write-selection", "bam-observe-after-write", "bam-get-then-write"]
+BOUNDS = {"quick": "500 (file, program) pairs for each of 8 text formats, up to 10 records, programs of up to 6 steps; 400 BAM pairs of up to 6 records",
+          "thorough": "10000 pairs per text format, up to 30 records, programs of up to 8 steps; 9600 BAM pairs of up to 16 records"}
 BUDGET_S = {"quick": 200, "thorough": 1500}
 
 FMTS = ["bed3", "bed6", "narrowpeak", "vcf", "sam", "fastq", "fasta2", "gtf"]
@@ -169,6 +176,9 @@ def write_table(table, fmt):
 
 
 def classify(case):
+    if case["fmt"] == "bam":
+        nt, cl = bamprog.classify(case)
+        return nt, cl + ["unmodified"]
     prog = case["program"]
     kinds = [op["op"] for op in prog]
     cl = [case["fmt"]]
@@ -322,6 +332,8 @@ def model_rows(case, model):
 def check(case, stats=None):
     import os
     import traceback
+    if case["fmt"] == "bam":
+        return bamprog.check_c04(case, stats)
     found = []
 
     def observe(kind, w, reals, models, cols, exact):
@@ -397,9 +409,16 @@ def task_fmt(stats, known_open, fmt, n, seed, max_records, max_steps):
     core.run_hypothesis(sys.modules[__name__], c04_case(fmt, max_records, max_steps), stats, known_open, max_examples=n, seed=seed)
 
 
+def task_bam(stats, known_open, n, seed, max_records, max_steps):
+    import sys
+    core.run_hypothesis(sys.modules[__name__], bamprog.bam_case(max_records, max_steps), stats, known_open, max_examples=n, seed=seed)
+
+
 def tasks(tier, seed):
     out = []
     n, mr, ms, reps = (500, 10, 6, 1) if tier == "quick" else (2500, 30, 8, 4)
+    for j in range(2 if tier == "quick" else 8):
+        out.append(("task_bam", dict(n=200 if tier == "quick" else 1200, seed=seed * 1000 + 900 + j, max_records=6 if tier == "quick" else 16, max_steps=6)))
     for i, fmt in enumerate(FMTS):
         for j in range(reps):
             out.append(("task_fmt", dict(fmt=fmt, n=n, seed=seed * 1000 + i * 10 + j, max_records=mr, max_steps=ms)))
